@@ -806,8 +806,11 @@ func genRenderWide(r *rand.Rand, emit func(Op)) {
 }
 
 /*
-Documents of a few kilobytes on which the real code takes tens of seconds (C06 as stated asks for
-seconds); reported, not repaired, and therefore not generated unless genReportedDefects is set.
+Documents of a few kilobytes on which the real code took tens of seconds (C06 as stated asks for
+seconds) until results were no longer built by repeated concatenation (repaired in the code); they
+are generated so that the quadratic behaviour is reported if it ever returns.  The last one stays
+below the width at which a single <pre> is slow for another reason (width 65535: the padding
+cells of one line are styled one by one; part of the recorded finding).
 */
 func genRenderSlow(r *rand.Rand, emit func(Op)) {
 	one := func(media, src string, w int) {
@@ -821,14 +824,14 @@ func genRenderSlow(r *rand.Rand, emit func(Op)) {
 	case 2:
 		one("html", repeatJoin(100, func(i int) string { return "<" + inlineTags[i%len(inlineTags)] + ">" })+strings.Repeat("word ", 400)+repeatJoin(100, func(i int) string { return "</" + inlineTags[(99-i)%len(inlineTags)] + ">" }), 80)
 	case 3:
-		one("html", "<pre>x</pre>", 65535)
+		one("html", "<pre>x</pre>", 16000)
 	}
 }
 
 /* deep nesting: panics, hangs and blow-up live here */
 func genRenderDeep(r *rand.Rand, n int, emit func(Op)) {
 	for i := 0; i < n; i++ {
-		if genReportedDefects && r.Intn(20) == 0 {
+		if r.Intn(20) == 0 {
 			genRenderSlow(r, emit)
 			continue
 		}
@@ -881,10 +884,10 @@ func genRenderDeep(r *rand.Rand, n int, emit func(Op)) {
 				close = "</" + nm + ">" + close
 			}
 		}
-		if !mix && tag == "pre" && depth > 9 {
-			/* nested <pre> is the recorded slow case (KNOWN_FINDINGS: cubic render time); the
-			   corpus holds one instance, the generator stays below it */
-			depth = 3 + r.Intn(7)
+		if !mix && tag == "pre" && depth > 20 {
+			/* deeply nested <pre> is the recorded slow case (KNOWN_FINDINGS: render time grows
+			   with the nesting depth); the corpus holds one instance, the generator stays below it */
+			depth = 3 + r.Intn(18)
 			open, close = strings.Repeat("<pre>", depth), strings.Repeat("</pre>", depth)
 		}
 		inner := pick(r, []string{"hello world", "<hr>", "x", "<img src=\"https://t.example/i\" alt=\"pic\">", "a b c d e f g"})
